@@ -496,6 +496,7 @@ impl SubRule {
         while index < max {
             #[cfg(asca_verif)] crate::verif::tick(19);
             *state_index = back_state;
+            let before_opt_pos = *pos;
             if self.match_opt_states(opt_states, word, pos, forwards)? {
                 let after_opt_pos = *pos;
                 let mut m = true;
@@ -510,6 +511,8 @@ impl SubRule {
                 if m {
                     return Ok(true)
                 } else {
+                    // a repetition that consumed nothing (e.g. `($,0)`) would be repeated for ever to the same effect
+                    if after_opt_pos == before_opt_pos { return Ok(false) }
                     index += 1;
                     // the rest of the environment may have consumed segments before it failed: go back to just after this repetition
                     *pos = after_opt_pos;
